@@ -28,7 +28,7 @@ in driver/props/c03.py):
   — each FALSE for the code as it is (known_findings.jsonl lists the witnesses).
 -/
 namespace Gv.Props.C03
-open Gv Gv.Model Gv.Model.Fmt Gv.Proofs.BagInv Gv.Proofs.FastaOutcome
+open Gv Gv.Model Gv.Model.Fmt Gv.Proofs.FmtBagInv Gv.Proofs.FastaOutcome
 
 /-- the C03 predicate on a model outcome -/
 def Good : Outcome Aln → Prop
